@@ -1,6 +1,8 @@
 """C05 -- A where-expression selects exactly the rows for which it is true.
 
 Obligations: coq/Props/C05.v (models coq/Model/Expr.v = documented meaning, coq/Model/SqlExpr.v = what the code does).
+Tie T: Gen/TimespanGen.v, Gen/PredGen.v (C11 / C15 translators) and Gen/RangeGen.v = SqlColumnVisitor.visit_in_range regenerated
+       by harness/translators/expr_range.py (in_range_correct_gen, range_gen_matches_model are stated over it).
 Tie K: a populated real repository per worker (harness/impl/c05_impl.py); generated typed expressions are rendered to
        where-strings, run through Butler.query_data_ids / query_dimension_records / query_datasets and the legacy
        Registry.queryDataIds / queryDimensionRecords / queryDatasets; the rows of the new interfaces are compared with the
@@ -642,6 +644,8 @@ class Gen:
             if a[0] in ("lit", "bind") and b[0] in ("lit", "bind") and self.cols(t):
                 a = self.col(r.choice(self.cols(t)))
             return ["cmp", op, a, b]
+        if m < 0.56 and self.cols("int") and r.random() < 0.8:
+            return self.boundary_in()
         if m < 0.68:          # IN
             t = r.choice(types)
             member = self.scalar(t, 2, allow_div=False) if t == "int" else self.scalar(t, 1)
@@ -685,6 +689,41 @@ class Gen:
         if self.cols("bool"):
             return self.col(r.choice(self.cols("bool")))
         return ["cmp", r.choice(["=", "<", ">="]), self.col(r.choice(self.cols("int"))), ["lit", self.vlit("int", self.cols("int")[0])]]
+
+    def boundary_in(self):
+        """IN / NOT IN whose range endpoints and list members sit on {-2..2} and whose member reaches those values
+        (`col - k` with k next to a stored value, unary minus): upper bound -1 (exclusive stop 0), 0, 1; lower bound
+        -1, 0; degenerate a..a and empty a..a-1; strides 1..3"""
+        r = self.r
+        B = [-2, -1, -1, 0, 0, 1, 2]
+        key = r.choice(self.cols("int"))
+        v = self.some_value(key)
+        v = 0 if v is None else int(v)
+        q = r.random()
+        if q < 0.15:
+            member = ["neg", self.col(key)]
+        elif q < 0.25 and key.endswith("seq_num"):
+            member = self.col(key)                       # seq_num itself is -2..3
+        else:
+            k = v - r.choice(B)
+            member = ["arith", "-", self.col(key), ["lit", ["int", k]]] if k >= 0 else ["arith", "+", self.col(key), ["lit", ["int", -k]]]
+        items = []
+        for _ in range(r.choice([1, 1, 2, 3])):
+            z = r.random()
+            if z < 0.75:
+                b = r.choice(B)
+                a = b - r.choice([0, 0, 1, 2, 3, 4, -1])         # -1: the empty range a..a-1
+                if r.random() < 0.3:
+                    a = r.choice(B)
+                    b = max(b, a - 1)
+                items.append(["range", a, b, r.choice([None, None, 1, 2, 3])])
+            elif z < 0.9:
+                self.nb += 1
+                items.append(["bind", f"b{self.nb}", ["int", r.choice(B)], True])
+            else:
+                self.nb += 1
+                items.append(["seq", f"s{self.nb}", [["int", r.choice(B)] for _ in range(r.randint(0, 3))], r.choice(["list", "tuple", "set"]), True])
+        return ["in", member, items, r.random() < 0.4]
 
     def boolean(self, depth):
         r = self.r
@@ -825,6 +864,21 @@ def fixed_cases():
     add("visit", ["cmp", "=", ["col", "visit.timespan", "visit.timespan"], ["null"]], "span-is-null")
     add("visit", ["not", ["cmp", "<", ["begin", ["col", "visit.timespan", "visit.timespan"]], ["lit", ["time", T0 + 300]]]], "not-null-comparison")
     add("visit_detector", ["cmp", "=", ["arith", "*", ["col", "visit", "visit"], ["lit", ["int", 3]]], D()], "two-dimension-arithmetic")
+    # range bounds around zero: the visitor receives the EXCLUSIVE stop (upper bound -1 -> stop 0); seeded change C05b
+    S = lambda: ["col", "visit.seq_num", "visit.seq_num"]
+    Dm = lambda k: ["arith", "-", D(), ["lit", ["int", k]]]
+    add("detector", ["in", Dm(6), [["range", -3, -1, None]], False], "range-upper-minus-one")
+    add("detector", ["in", Dm(6), [["range", -3, -1, None]], True], "range-upper-minus-one-not-in")
+    add("detector", ["in", Dm(6), [["range", -5, -1, 2]], False], "range-upper-minus-one-stride")
+    add("detector", ["in", Dm(6), [["range", -3, 0, None]], False], "range-upper-zero")
+    add("detector", ["in", Dm(6), [["range", -3, 1, 3]], False], "range-upper-one")
+    add("detector", ["in", Dm(3), [["range", -1, -1, None]], False], "range-degenerate-minus-one")
+    add("detector", ["in", Dm(3), [["range", 0, -1, None]], False], "range-empty-zero-minus-one")
+    add("detector", ["in", Dm(3), [["range", -1, 2, 2]], True], "range-lower-minus-one")
+    add("detector", ["in", Dm(3), [["range", 0, 2, None], ["range", -2, -1, None]], False], "range-lower-zero")
+    add("visit", ["in", S(), [["range", -2, -1, None]], False], "range-upper-minus-one-column")
+    add("visit", ["in", ["neg", S()], [["range", -2, -1, None], ["range", 0, 0, None]], True], "range-upper-minus-one-negated-member")
+    add("visit", ["in", ["arith", "-", ["col", "visit", "visit"], ["lit", ["int", 6]]], [["range", -3, -1, None]], False], "range-visit-minus-six")
     # known findings, in isolation
     add("detector", ["in", ["arith", "/", D(), ["lit", ["int", 2]]], [["range", 1, 2, None]], False], "quot-range")
     add("visit", ["tin", ["begin", ["col", "visit.timespan", "visit.timespan"]], ["lit", ["time", T0 + 100]], ["lit", ["time", T0 + 300]], False], "time-in")
@@ -843,6 +897,7 @@ def fixed_cases():
     # ill-typed: must be rejected cleanly, and the model must agree on that
     add("detector", ["cmp", "=", D(), ["lit", ["real", 5, 2]]], "int-vs-float", wt=False)
     add("detector", ["in", D(), [["range", 5, 3, None]], False], "inverted-range", wt=False)
+    add("detector", ["in", Dm(3), [["range", 1, -1, None]], False], "inverted-range-minus-one", wt=False)
     add("visit", ["in", ["col", "visit.exposure_time", "visit.exposure_time"], [["range", 0, 8, None]], False], "range-on-float", wt=False)
     add("exposure", ["cmp", "=", ["col", "exposure.can_see_sky", "exposure.can_see_sky"], ["col", "exposure.has_simulated", "exposure.has_simulated"]], "bool-equals-bool", wt=False)
     return out
@@ -949,12 +1004,14 @@ def run(ctx: Ctx):
     ctx.regen("timespan", ttr.translate)
     from harness.translators import predicate as ptr
     ctx.regen("predicate", ptr.translate)
+    from harness.translators import expr_range as rtr
+    ctx.regen("range", rtr.translate)       # Gen/RangeGen.v <- SqlColumnVisitor.visit_in_range
     props_ok = ctx.build_props(extra_targets=["Model/ExprCheck.vo", "Model/ExprLegacyCheck.vo"])
     if not props_ok:
         from harness.common import coq_make
         coq_make(["Model/ExprCheck.vo", "Model/ExprLegacyCheck.vo"])
 
-    n_expr = 260 if ctx.quick else 2400
+    n_expr = 275 if ctx.quick else 2400
     ok = run_batch(ctx, n_expr)
     if (ctx.broken and not ctx.oracle_failures) and ctx.quick:
         # something no longer checks but the oracle held: search deeper on the implementation
